@@ -21,6 +21,7 @@ ASSUMPTIONS = [
     'the dialect is the generator grammar; e.g. `while (c) stmt`, `?x,y` and newer compound operators are not generated as valid input',
 ]
 EXHAUSTIVE = {'quick': False, 'thorough': False}
+PYOPT_KINDS = (None,)
 KNOWN_KEYS = {'nested-short-if'}
 NODE_FEATS = ['StatAssignment', 'StatAssignment:compound', 'StatFunctionCall', 'StatDo', 'StatWhile', 'StatRepeat', 'StatIf', 'StatForStep',
               'StatForIn', 'StatFunction', 'StatLocalFunction', 'StatLocalAssignment', 'StatGoto', 'StatLabel', 'StatBreak', 'StatReturn',
